@@ -489,6 +489,44 @@ def shape_facts():
             facts["override_mode_guarded"] = bool(re.search(r"is_classic\(\)|SchedulingMode::Classic|!\s*classic", ctx))
     except OSError as e:
         notes["packet_handler"] = str(e)
+    # 4. the event loop (src/sender/mod.rs), which no harness can run inside a check:
+    #    (a) the housekeeping arm logs a failed pass and carries on (retries continue for ever),
+    #    (b) every client datagram is handed the registration manager's session flag,
+    #    (c) a replaced socket's reader task is aborted before the new one is started (uplink.rs).
+    try:
+        ml = strip_comments(open(os.path.join(REPO, "src/sender/mod.rs")).read())
+        calls = list(re.finditer(r"handle_housekeeping\s*\(", ml))
+        swallowed = False
+        propagated = False
+        for m in calls:
+            if re.search(r"\buse\b[^;]*$", ml[max(0, m.start() - 80):m.start()]):
+                continue
+            head = ml[max(0, m.start() - 60):m.start()]
+            tail = ml[m.start():m.start() + 700]
+            stmt_end = tail.find(";")
+            brace = tail.find("{")
+            if re.search(r"if\s+let\s+Err\s*\(\s*\w+\s*\)\s*=\s*$", head):
+                swallowed = True
+            seg = tail[:stmt_end if stmt_end >= 0 else len(tail)]
+            if re.search(r"\.await\s*(\.\w+\([^)]*\)\s*)*\?", seg) and (brace < 0 or stmt_end < brace):
+                propagated = True
+        facts["loop_housekeeping_error_logged_not_fatal"] = swallowed and not propagated
+        m = re.search(r"handle_srt_packet\s*\(([^;]*?)\)\s*\.await", ml, re.S)
+        facts["loop_passes_reg_has_connected"] = bool(m and re.search(r"\breg\s*\.\s*has_connected\b(\s*\(\s*\))?\s*,", m.group(1)))
+    except OSError as e:
+        notes["event_loop"] = str(e)
+    try:
+        up = strip_comments(open(os.path.join(REPO, "src/sender/uplink.rs")).read())
+        m = re.search(r"fn\s+restart_reader_for\b", up)
+        ok = False
+        if m:
+            body = block_after(up, up.find("{", m.end()) - 1) if up.find("{", m.end()) >= 0 else ""
+            ab = re.search(r"\.abort\s*\(\s*\)", body)
+            sp = re.search(r"spawn_reader\s*\(", body)
+            ok = bool(ab and sp and ab.start() < sp.start())
+        facts["reader_restart_aborts_old_reader"] = ok
+    except OSError as e:
+        notes["uplink_reader"] = str(e)
     return facts, notes
 
 
